@@ -584,6 +584,38 @@ def cached_functions_are_functions_of_their_key(ctx, rep, rule: str) -> None:
     rep.floor(rule, "memoised functions", n, 1)
 
 
+def memoised_results_are_read_only(ctx, rep, rule: str) -> None:
+    """The object a memoised function returns is shared by every later call with the same key: no call site may write into
+    it (in-place tensor method / operator, element store, `out=`), directly or through the local it is bound to."""
+    repo = ctx.repo
+    cached = {fi.name: fi for fi in repo.funcs.values() if {d.split(".")[-1] for d in fi.decorators} & {"cache", "lru_cache", "cached_property"}}
+    rep.floor(rule, "memoised functions", len(cached), 1)
+    n_sites = 0
+    for fi in repo.funcs.values():
+        calls = [c for c in A.calls(fi.node) if (isinstance(c.func, ast.Name) and c.func.id in cached) or (isinstance(c.func, ast.Attribute) and c.func.attr in cached and not c.func.attr.endswith("_"))]
+        if not calls:
+            continue
+        ids = {id(c) for c in calls}
+        bound = {t.id for n in ast.walk(fi.node) if isinstance(n, (ast.Assign, ast.AnnAssign)) and n.value is not None and id(n.value) in ids for t in (n.targets if isinstance(n, ast.Assign) else [n.target]) if isinstance(t, ast.Name)}
+
+        def is_shared(e: ast.AST) -> bool:
+            return id(e) in ids or (isinstance(e, ast.Name) and e.id in bound)
+
+        bad = []
+        for n in ast.walk(fi.node):
+            if isinstance(n, ast.Call) and isinstance(n.func, ast.Attribute) and n.func.attr.endswith("_") and not n.func.attr.endswith("__") and is_shared(n.func.value):
+                bad.append(n)
+            elif isinstance(n, ast.Call) and any(k.arg == "out" and is_shared(k.value) for k in n.keywords):
+                bad.append(n)
+            elif isinstance(n, ast.AugAssign) and (is_shared(n.target) or (isinstance(n.target, ast.Subscript) and is_shared(n.target.value))):
+                bad.append(n)
+            elif isinstance(n, ast.Assign) and any(isinstance(t, ast.Subscript) and is_shared(t.value) for t in n.targets):
+                bad.append(n)
+        n_sites += len(calls)
+        rep.ob(rule, f"memoised-result-read-only:{short(fi.qual)}", not bad, fi.loc(bad[0]) if bad else fi.loc(calls[0]), f"`{fi.name}` uses the result of memoised {sorted({(c.func.id if isinstance(c.func, ast.Name) else c.func.attr) for c in calls})}" + (f" and writes into it at line {bad[0].lineno} (`{ast.unparse(bad[0])[:90]}`): the next call with the same key receives the modified object" if bad else " without writing into it"), sample=True)
+    rep.floor(rule, "call sites of memoised functions", n_sites, 1)
+
+
 def late_binding_closures(ctx, rep, rule: str, modules: tuple[str, ...] = ("distributed_shampoo",)) -> None:
     """A lambda / nested function created inside a loop or comprehension and kept for later (stored in an object, a list, a
     dict, returned) must not read the loop variable as a free variable: Python binds it late, so every kept closure would see
